@@ -41,6 +41,17 @@ func (l Lin) add(o Lin, sign int) Lin {
 	return r
 }
 
+func (l Lin) scale(k int) Lin {
+	out := newLin()
+	out.Const = l.Const * k
+	for a, c := range l.Coef {
+		if c*k != 0 {
+			out.Coef[a] = c * k
+		}
+	}
+	return out
+}
+
 func (l Lin) neg() Lin { return newLin().add(l, -1) }
 
 func (l Lin) String() string {
@@ -157,6 +168,16 @@ func (n *Normalizer) Value(v ssa.Value) (Lin, bool) {
 				return a.add(b, 1), true
 			}
 			return a.add(b, -1), true
+		}
+		if x.Op == token.MUL {
+			// multiplication by an integer constant (`-1*t`)
+			for _, pr := range [][2]ssa.Value{{x.X, x.Y}, {x.Y, x.X}} {
+				if k, ok := ConstInt(pr[0]); ok {
+					if l, ok := n.Value(pr[1]); ok {
+						return l.scale(int(k)), true
+					}
+				}
+			}
 		}
 		return n.fail("unsupported operator %s", x.Op)
 	case *ssa.Phi:
